@@ -22,6 +22,9 @@ type ActCase struct {
 	Shape string `json:"shape,omitempty"`
 	Build string `json:"build,omitempty"`
 	Stop  bool   `json:"stop,omitempty"`
+	FailAt int   `json:"fail_at"` // batch: index of an item whose exec fails (-1: none)
+	// scripted kinds: 0 exec succeeds at once, 1 succeeds on the second attempt, 2 every attempt fails and the fallback recovers
+	ExecPath int `json:"exec_path,omitempty"`
 }
 
 type probeNode struct {
@@ -49,6 +52,9 @@ func runActCase(cs *ActCase) (fs []finding) {
 		bc := &BatchCase{Family: "c18", N: cs.N, C: cs.C, Budget: 1, Items: make([]ItemScript, cs.N), Shape: cs.Shape, Build: cs.Build, ExecStyle: "result", Post: &post, Stop: cs.Stop, SetMode: cs.Stop}
 		for i := range bc.Items {
 			bc.Items[i].K = 1
+			if i == cs.FailAt {
+				bc.Items[i].K = 2
+			}
 		}
 		node = newBatchRun(bc).build()
 	case "flow", "flow-in-flow":
@@ -68,7 +74,15 @@ func runActCase(cs *ActCase) (fs []finding) {
 				kind = i
 			}
 		}
-		sc := &scen.Scenario{Nodes: []scen.NodeSpec{{Kind: kind, N: 1, HasFB: true, Visits: []scen.Visit{{FirstOK: 1, Post: cs.Post}}}}, Root: 0, Runs: 1}
+		ns := scen.NodeSpec{Kind: kind, N: 1, HasFB: true, Visits: []scen.Visit{{FirstOK: 1, Post: cs.Post}}}
+		switch cs.ExecPath {
+		case 1:
+			ns.N, ns.Visits[0].FirstOK = 2, 2
+		case 2:
+			ns.N = 2
+			ns.Visits[0].FirstOK = 3
+		}
+		sc := &scen.Scenario{Nodes: []scen.NodeSpec{ns}, Root: 0, Runs: 1}
 		node = scen.NewExec(sc).RootNode()
 	}
 	if !cs.Routed {
@@ -124,9 +138,15 @@ func runC18(c *Cfg) {
 	for _, post := range []string{"", "default", "custom"} {
 		for _, routed := range []bool{false, true} {
 			for k := 0; k < scen.NumScriptedKinds; k++ {
-				cases = append(cases, &ActCase{Family: "grid", Kind: scen.KindNames[k], Post: post, Routed: routed})
+				cases = append(cases, &ActCase{Family: "grid", Kind: scen.KindNames[k], Post: post, Routed: routed, FailAt: -1})
+				if scen.KindHasRetry(k) {
+					cases = append(cases, &ActCase{Family: "grid", Kind: scen.KindNames[k], Post: post, Routed: routed, FailAt: -1, ExecPath: 1})
+				}
+				if scen.KindCanFB(k) {
+					cases = append(cases, &ActCase{Family: "grid", Kind: scen.KindNames[k], Post: post, Routed: routed, FailAt: -1, ExecPath: 2})
+				}
 			}
-			cases = append(cases, &ActCase{Family: "grid", Kind: "flow", Post: post, Routed: routed}, &ActCase{Family: "grid", Kind: "flow-in-flow", Post: post, Routed: routed})
+			cases = append(cases, &ActCase{Family: "grid", Kind: "flow", Post: post, Routed: routed, FailAt: -1}, &ActCase{Family: "grid", Kind: "flow-in-flow", Post: post, Routed: routed, FailAt: -1})
 			for n := 0; n <= 3; n++ {
 				for cc := 0; cc <= 2; cc++ {
 					for _, stop := range []bool{false, true} {
@@ -136,12 +156,14 @@ func runC18(c *Cfg) {
 								if sh == "empty-results" || sh == "results" {
 									b = "builder"
 								}
-								cases = append(cases, &ActCase{Family: "grid", Kind: "batch", Post: post, Routed: routed, N: 0, C: cc, Shape: sh, Build: b, Stop: stop})
+								cases = append(cases, &ActCase{Family: "grid", Kind: "batch", Post: post, Routed: routed, N: 0, C: cc, Shape: sh, Build: b, Stop: stop, FailAt: -1})
 							}
 							continue
 						}
-						cases = append(cases, &ActCase{Family: "grid", Kind: "batch", Post: post, Routed: routed, N: n, C: cc, Shape: "results", Build: "builder", Stop: stop})
-						cases = append(cases, &ActCase{Family: "grid", Kind: "batch", Post: post, Routed: routed, N: n, C: cc, Shape: "any", Build: "compose", Stop: stop})
+						for fail := -1; fail < n; fail++ {
+							cases = append(cases, &ActCase{Family: "grid", Kind: "batch", Post: post, Routed: routed, N: n, C: cc, Shape: "results", Build: "builder", Stop: stop, FailAt: fail})
+							cases = append(cases, &ActCase{Family: "grid", Kind: "batch", Post: post, Routed: routed, N: n, C: cc, Shape: "any", Build: "compose", Stop: stop, FailAt: fail})
+						}
 					}
 				}
 			}
@@ -167,7 +189,7 @@ func runC18(c *Cfg) {
 		}
 	}
 	r.Exhaustive = true
-	r.Note(fmt.Sprintf("grid enumerated completely: %d cases (11 node kinds + flow + flow-in-flow + batch sizes 0..3 x concurrency 0..2 x prep shapes) x post in {\"\", default, custom} x {direct, routed}", len(cases)))
+	r.Note(fmt.Sprintf("grid enumerated completely: %d cases (11 node kinds x exec path {direct, success on retry, rescued by fallback} + flow + flow-in-flow + batch sizes 0..3 x concurrency 0..2 x stop/continue x failing item position x prep shapes) x post in {\"\", default, custom} x {direct, routed}", len(cases)))
 }
 
 func replayC18(c *Cfg, spec json.RawMessage) {
